@@ -182,13 +182,18 @@ def canon(pool, members, edges):
             tuple(frozenset(s.vname for s in j._s_successors) for j in pool))
 
 
-def edit_search(n, res, pure):
-    _, pool, members, edges, _ = apply_history(n, [], pure)
+def edit_search(n, res, pure, prefix=(), maxlen=None):
+    """breadth-first over edit histories extending `prefix`; maxlen bounds
+    the history length (None: until no new state appears)"""
+    prefix = [tuple(o) for o in prefix]
+    _, pool, members, edges, _ = apply_history(n, prefix, pure)
     seen = {canon(pool, members, edges)}
-    frontier = collections.deque([[]])
+    frontier = collections.deque([prefix])
     hist = []
     while frontier and not res.get('abort'):
         hist = frontier.popleft()
+        if maxlen is not None and len(hist) >= maxlen:
+            continue
         _, _, members, edges, _ = apply_history(n, hist, pure)
         for op in list(enabled(n, members, edges)):
             h2 = hist + [op]
@@ -264,7 +269,8 @@ def check_tree(tree, pure, res):
 def run_item(item):
     res = seq.new_result()
     if item['kind'] == 'edits':
-        edit_search(item['n'], res, item['pure'])
+        edit_search(item['n'], res, item['pure'], item.get('prefix', ()),
+                    item.get('maxlen'))
     elif item['kind'] == 'trees':
         for t in TREES:
             for pure in (False, True):
@@ -301,7 +307,14 @@ def items(tier, seed):
     for pure in (False, True):
         yield {'kind': 'edits', 'n': 3, 'pure': pure}
     if th:
-        yield {'kind': 'edits', 'n': 4, 'pure': False}
+        # pool of 4: histories of up to 6 edits, split on the first two
+        for i in range(4):
+            for j in range(4):
+                if i != j:
+                    for q in ((), ('noquery',)):
+                        yield {'kind': 'edits', 'n': 4, 'pure': False,
+                               'prefix': [('add', i), ('add', j) + (
+                                   (None,) + q if q else ())], 'maxlen': 6}
 
 
 def replay(rep):
